@@ -757,7 +757,9 @@ def table_state(ctx, cls, with_sections, with_segments):
         off = z3.BitVec(f"tab.{nm}off", 64)
         # the number of entries is enumerated (1..K) by the decision mechanism: a concrete count keeps every size a constant
         nvar = z3.BitVec(f"tab.{nm}num", 64)
-        k = ctx.choose([(f"{nm}num={i + 1}", nvar == i + 1) for i in range(K_TABLE)]) + 1
+        kmax = ctx.env.get("K_" + nm, K_TABLE)
+        kmin = ctx.env.get("Kmin_" + nm, 1)
+        k = ctx.choose([(f"{nm}num={i}", nvar == i) for i in range(kmin, kmax + 1)]) + kmin
         ctx.assume(z3.And(z3.ULE(off, fl), z3.ULE(bv(k * es), fl - off), off != 0))
         st[nm] = Slice(ctx.env["file"], off, bv(k * es))
     return st
@@ -786,7 +788,7 @@ def mk_stream_file(ctx, cls, st):
     return Agg([mk_ehdr(cls), vec(st["sh"], "SectionHeader"), vec(st["ph"], "ProgramHeader"), cr], "ElfStream")
 
 
-def run_file_method(prog, side, method, cls, with_sections, with_segments, fault_free=True, extra_args=None, tag=None, scope=None):
+def run_file_method(prog, side, method, cls, with_sections, with_segments, fault_free=True, extra_args=None, tag=None, scope=None, k_sh=None, k_ph=None, kmin_sh=None):
     solver = new_solver()
     stats = dict(queries=0, paths=0)
     fn = prog.find(("ElfBytes" if side == "bytes" else "ElfStream", method))
@@ -795,6 +797,12 @@ def run_file_method(prog, side, method, cls, with_sections, with_segments, fault
 
     def path(ctx):
         model.reader_env(ctx, fault_free=fault_free)
+        if k_sh:
+            ctx.env["K_sh"] = k_sh
+        if k_ph:
+            ctx.env["K_ph"] = k_ph
+        if kmin_sh:
+            ctx.env["Kmin_sh"] = kmin_sh
         st = table_state(ctx, cls, with_sections, with_segments)
         obj = mk_bytes_file(ctx, cls, st) if side == "bytes" else mk_stream_file(ctx, cls, st)
         ctx.env["obj"] = obj
@@ -815,7 +823,8 @@ def no_compressed_sections(cls):
             return z3.BoolVal(True)
         ci = 0 if cls == "ELF32" else 1
         es = model.CLASS_SIZES["SectionHeader"][ci]
-        return z3.And([(model.field_term("SectionHeader", 2, ci, st["sh"].file_pos() + bv(i * es), 64) & 0x800) == 0 for i in range(K_TABLE)])
+        nn = z3.simplify(z3.UDiv(st["sh"].len, bv(es))).as_long()
+        return z3.And([(model.field_term("SectionHeader", 2, ci, st["sh"].file_pos() + bv(i * es), 64) & 0x800) == 0 for i in range(nn)] + [z3.BoolVal(True)])
     return scope
 
 
@@ -941,7 +950,7 @@ def first_of_type(cls, st, ty):
     n = num_sections(cls, st)
     out = []
     prev = []
-    for j in range(K_TABLE):
+    for j in range(z3.simplify(n).as_long()):
         t = shdr_terms(cls, st, j)
         c = z3.And(z3.ULT(bv(j), n), t["sh_type"] == ty, *prev)
         out.append((c, t))
@@ -954,7 +963,7 @@ def linked(cls, st, link32):
     """list over l < K of (cond, terms): sh_link designates section l of the table"""
     n = num_sections(cls, st)
     link = z3.ZeroExt(32, link32)
-    return [(z3.And(link == l, z3.ULT(bv(l), n)), shdr_terms(cls, st, l)) for l in range(K_TABLE)], z3.UGE(link, n)
+    return [(z3.And(link == l, z3.ULT(bv(l), n)), shdr_terms(cls, st, l)) for l in range(z3.simplify(n).as_long())], z3.UGE(link, n)
 
 
 def lemma_L8(prog, res, classes=("ELF64",)):
@@ -1036,12 +1045,12 @@ def lemma_L8(prog, res, classes=("ELF64",)):
                     res.add(f"C05.no_strtab_iff_shstrndx_undef({name})", "holds" if okv else "violated", model_str(mdl, 20), mdl)
                 else:
                     alts = [z3.And(idx == l, z3.ULT(bv(l), n), slice_is(strs.f[0].f[0], shdr_terms(cls, st, l)["sh_offset"], shdr_terms(cls, st, l)["sh_size"]),
-                                   range_fits(shdr_terms(cls, st, l)["sh_offset"], shdr_terms(cls, st, l)["sh_size"], fl)) for l in range(K_TABLE)]
+                                   range_fits(shdr_terms(cls, st, l)["sh_offset"], shdr_terms(cls, st, l)["sh_size"], fl)) for l in range(z3.simplify(n).as_long())]
                     okv, mdl = valid(res, solver, pc, z3.And(shstrndx != 0, z3.Or(alts)))
                     res.add(f"C05.shstrtab_is_range_of_designated_section({name})", "holds" if okv else "violated",
                             "" if okv else f"strtab={strs!r}: {model_str(mdl, 20)}", mdl)
             else:
-                bad = z3.And(shstrndx != 0, z3.Or([z3.UGE(idx, n)] + [z3.And(idx == l, z3.Not(range_fits(shdr_terms(cls, st, l)["sh_offset"], shdr_terms(cls, st, l)["sh_size"], fl))) for l in range(K_TABLE)]))
+                bad = z3.And(shstrndx != 0, z3.Or([z3.UGE(idx, n)] + [z3.And(idx == l, z3.Not(range_fits(shdr_terms(cls, st, l)["sh_offset"], shdr_terms(cls, st, l)["sh_size"], fl))) for l in range(z3.simplify(n).as_long())]))
                 okv, mdl = valid(res, solver, pc, bad)
                 res.add(f"C05.strtab_err_only_when_index_or_range_bad({name})", "holds" if okv else "violated", model_str(mdl, 20), mdl)
         # dynamic(): via the first SHT_DYNAMIC section (entsize gate), with BOTH tables present
@@ -1197,7 +1206,7 @@ def lemma_L9(prog, res, cls="ELF64"):
     scope = one_section_per_kind(cls)
     name = f"symbol_version_table[{cls}]"
     try:
-        bp, bsol, bst = run_file_method(prog, "bytes", "symbol_version_table", cls, True, False, tag="svt", scope=scope)
+        bp, bsol, bst = run_file_method(prog, "bytes", "symbol_version_table", cls, True, False, tag="svt", scope=scope, k_sh=3)
     except sym.Unsupported as u:
         res.add(f"L9.encode({name})", "inconclusive", str(u))
         return
@@ -1251,3 +1260,61 @@ def lemma_L9(prog, res, cls="ELF64"):
             res.add(f"C13.{label}_iterator_wired_to_section_info_and_link({name})", "holds" if okv else "violated",
                     "" if okv else f"iterator={it!r} strtab={strs!r}: {model_str(mdl, 16)}"[:900], mdl)
     res.add(f"L9.witness.paths({name})", "holds" if all(counts[k] >= 1 for k in counts) else "inconclusive", str(counts))
+
+
+def lemma_L6b(prog, res, cls="ELF64"):
+    """find_common_data on files with ALL five common sections (5-entry table; the five kinds in every rotation of the order,
+    so that each kind is last once), all other header fields symbolic: every member of CommonElfData is found and is the
+    designated range of its section."""
+    kinds = [("symtab", SHT["SYMTAB"]), ("dynsyms", SHT["DYNSYM"]), ("dynamic", SHT["DYNAMIC"]), ("sysv_hash", SHT["HASH"]), ("gnu_hash", SHT["GNU_HASH"])]
+    ci = 0 if cls == "ELF32" else 1
+    for rot in range(5):
+        order = kinds[rot:] + kinds[:rot]
+        name = f"find_common_data[{cls}, section order {'/'.join(k for k, _ in order)}]"
+
+        def scope(ctx, obj, st, order=order):
+            cs = [shdr_terms(cls, st, i)["sh_type"] == order[i][1] for i in range(5)]
+            cs.append(no_compressed_sections(cls)(ctx, obj, st))
+            return z3.And(cs)
+        try:
+            cp, csol, cst = run_file_method(prog, "bytes", "find_common_data", cls, True, False, tag=f"fc{rot}", scope=scope, k_sh=5, kmin_sh=5)
+        except sym.Unsupported as u:
+            res.add(f"L6b.encode({name})", "inconclusive", str(u))
+            continue
+        res.stats["queries"] += cst["queries"]
+        res.stats["paths"] += cst["paths"]
+        solver = new_solver()
+        n_ok = 0
+        for p in cp:
+            if p["status"] != "ok":
+                res.add(f"C01.no_panic({name}, engine B)", "violated", p["status"])
+                continue
+            v = p["value"]
+            if not is_ok(v):
+                continue
+            n_ok += 1
+            cd = v.f[0]       # symtab, symtab_strs, dynsyms, dynsyms_strs, dynamic, sysv_hash, gnu_hash
+            st = p["env"]["tables"]
+            pos = {k: i for i, (k, _) in enumerate(order)}
+            members = {"symtab": cd.f[0], "dynsyms": cd.f[2], "dynamic": cd.f[4], "sysv_hash": cd.f[5], "gnu_hash": cd.f[6]}
+            missing = [k for k, m in members.items() if m.variant != "Some"]
+            if missing or cd.f[1].variant != "Some" or cd.f[3].variant != "Some":
+                res.add(f"C20.common_data_finds_every_common_section({name})", "violated",
+                        f"find_common_data returned Ok but left {missing or 'a string table'} empty although a section of that kind exists (position {[pos[k] for k in missing]} of 5)")
+                continue
+            claims = []
+            for k in ("symtab", "dynsyms", "dynamic"):
+                t = shdr_terms(cls, st, pos[k])
+                claims.append(slice_is(members[k].f[0].f[2], t["sh_offset"], t["sh_size"]))
+            for (k, strs) in (("symtab", cd.f[1]), ("dynsyms", cd.f[3])):
+                t = shdr_terms(cls, st, pos[k])
+                links, _ = linked(cls, st, t["sh_link"])
+                claims.append(z3.Or([z3.And(lc, slice_is(strs.f[0].f[0], lt["sh_offset"], lt["sh_size"])) for (lc, lt) in links]))
+            th = shdr_terms(cls, st, pos["sysv_hash"])
+            claims.append(model.as_slice(members["sysv_hash"].f[0].f[0].f[2]).file_pos() == th["sh_offset"] + 8)
+            tg = shdr_terms(cls, st, pos["gnu_hash"])
+            claims.append(model.as_slice(members["gnu_hash"].f[0].f[3]).file_pos() == tg["sh_offset"] + 16)
+            okv, mdl = valid(res, solver, p["pc"], z3.And(claims))
+            res.add(f"C20.common_data_members_are_the_designated_ranges({name})", "holds" if okv else "violated", model_str(mdl, 12), mdl)
+            res.add(f"C20.common_data_finds_every_common_section({name})", "holds")
+        res.add(f"L6b.witness.ok_paths({name})", "holds" if n_ok >= 1 else "inconclusive", f"{n_ok} Ok paths of {len(cp)}")
